@@ -7,6 +7,7 @@ package pipe
 import (
 	"bytes"
 	"fmt"
+	"runtime"
 	"math/rand"
 	"sync"
 	"sync/atomic"
@@ -322,6 +323,12 @@ func RunGated(text []byte, nd bool, copyStrings bool, reuse *simdjson.ParsedJson
 		}
 		if blocks {
 			st.Blocked[pick] = true
+			// let the released goroutine actually reach the channel operation before anything else moves:
+			// the model's step is "the send/receive is now pending", not "it will be attempted some time later"
+			for i := 0; i < 20; i++ {
+				runtime.Gosched()
+			}
+			time.Sleep(1500 * time.Microsecond)
 		} else {
 			running++
 		}
